@@ -61,7 +61,8 @@ def main():
             mm = re.findall(r"^func (Test\w+)\(", open(os.path.join(W, pkgdir, fn)).read(), re.M)
             if mm: testname = (pkgdir, "|".join(mm))
         assert testname, "no demo test found"
-        cmd = "go test -count=1 -vet=off -run '^(%s)$' ./%s/" % (testname[1], testname[0])
+        race = "-race " if "-race" in str(meta.get("demo_run", "")) else ""
+        cmd = "go test %s-count=1 -vet=off -run '^(%s)$' ./%s/" % (race, testname[1], testname[0])
         rc0, out0 = sh(cmd, cwd=W)
         res["demo_without_change"] = {"rc": rc0, "tail": out0[-600:]}
         rc, out = sh("git apply %s" % os.path.join(src, "patch.diff"), cwd=W)
